@@ -318,7 +318,13 @@ pub fn main(rest: &[String]) -> i32 {
     for r in 0..runs {
         let sc = scenario_from(&a, &kind, seed.wrapping_mul(7919).wrapping_add(r as u64));
         let honest: Vec<usize> = (0..sc.n).collect();
-        w.write(&json!({"t":"reset","n":sc.n,"stakes":sc.stakes,"honest":honest,"seed":sc.seed,"kind":kind}));
+        let lt = {
+            let mut c = crate::rig::RigCfg::new(sc.n);
+            c.stakes = sc.stakes.clone();
+            c.key_seed = (sc.seed % 200) as u8;
+            crate::rig::leader_table(&c, 256)
+        };
+        w.write(&json!({"t":"reset","n":sc.n,"stakes":sc.stakes,"honest":honest,"seed":sc.seed,"kind":kind,"leaders":lt}));
         let mut o = run(&sc, id_base, &tag);
         let crashed: Vec<usize> = sc.crash.iter().map(|(x, _)| *x).collect();
         let live: Vec<usize> = (0..sc.n).filter(|i| !crashed.contains(i)).collect();
